@@ -76,11 +76,11 @@ class R:
         *(PROBEV(x), &x)."""
         n = self.N(i)
         if self.native and (i == self.probe or i == self.reach) and reads:
-            self.emit("*(PROBEV(%d, " % (1 if i == self.probe else 0))
+            self.emit("(*(PROBEV(%d, " % (1 if i == self.probe else 0))
             self.ex0(i, n)
             self.emit("), &")
             self.lvopnd(i)
-            self.emit(")")
+            self.emit("))")
         else:
             self.lvopnd(i, postfix)
 
@@ -331,19 +331,262 @@ def render_native(progs, plat, runs, probe=None, reach=None):
         END <k> <status>   status 0 = clean exit of the child, otherwise killed / sanitizer report
     """
     lines = [ln for ln in NATIVE_PRELUDE.split("\n")]
+    if plat == "p16":
+        lines += P16_PRELUDE.split("\n")
     for pidx, p in enumerate(progs):
         pr = probe[1] if probe and probe[0] == pidx else 0
         rc = reach[1] if reach and reach[0] == pidx else 0
-        R(p, pidx, plat, lines, None, native=True, probe=pr, reach=rc).program()
+        (R16 if plat == "p16" else R)(p, pidx, plat, lines, None, native=True, probe=pr, reach=rc).program()
     lines.append("int main(void)")
     lines.append("{")
     lines.append("    setvbuf(stdout, 0, _IONBF, 0);")
     for k, (pidx, inp) in enumerate(runs):
         p = progs[pidx]
         f = p["funcs"][0]
-        args = ", ".join("(%s)%dLL" % (T.CNAME[f["vars"][j]["ty"]], inp[j]) if inp[j] > -(1 << 63) else "0" for j in range(f["np"]))
+        args = ", ".join("(%s)%dLL" % (("t_" + f["vars"][j]["ty"]) if plat == "p16" else T.CNAME[f["vars"][j]["ty"]], inp[j])
+                         for j in range(f["np"]))
         lines.append("    { printf(\"RUN %d\\n\"); pid_t c = fork(); if (c == 0) { long long r = (long long)%s(%s); printf(\"RET %%lld\\n\", r); _exit(0); }"
                      " int st = 0; waitpid(c, &st, 0); printf(\"END %d %%d\\n\", st); }" % (k, f["name"], args, k))
     lines.append("    return 0;")
     lines.append("}")
     return "\n".join(lines) + "\n"
+
+
+# ------------------------------------------------------------------------------------------------ p16 native witness
+# gcc has no target with 16 bit int here, so the witness for platform p16 is compiled from an explicit form: every
+# variable has the exact-width native type (int -> int16_t, long -> int32_t, ...), every expression is computed in
+# long long and brought back to its C type by a conversion (cv_*) or, for signed arithmetic, by a range check that
+# aborts like UBSan would (ck_*).  Memory (pointers, arrays, aliasing) and control flow are the compiler's.
+P16_PRELUDE = r"""
+#include <stdint.h>
+typedef int8_t t_char; typedef int8_t t_schar; typedef uint8_t t_uchar; typedef int16_t t_short; typedef uint16_t t_ushort;
+typedef int16_t t_int; typedef uint16_t t_uint; typedef int32_t t_long; typedef uint32_t t_ulong;
+static void ub16(const char *w) { fprintf(stderr, "p16 runtime error: %s\n", w); fflush(stderr); abort(); }
+static long long cv_s(int b, long long v) { unsigned long long m = (unsigned long long)v & ((1ULL << b) - 1); if (m >> (b - 1)) return (long long)m - (1LL << b); return (long long)m; }
+static long long cv_u(int b, long long v) { return (long long)((unsigned long long)v & ((1ULL << b) - 1)); }
+static long long ck_s(int b, long long v) { if (v < -(1LL << (b - 1)) || v > (1LL << (b - 1)) - 1) ub16("signed overflow"); return v; }
+static long long dv(long long a, long long b) { if (b == 0) ub16("division by zero"); return a / b; }
+static long long md(int sg, int bits, long long a, long long b) { if (b == 0) ub16("division by zero"); if (sg && b == -1 && a == -(1LL << (bits - 1))) ub16("signed overflow"); return a % b; }
+static long long shl(int sg, int b, long long a, long long n) { if (n < 0 || n >= b) ub16("shift count"); if (sg) { if (a < 0) ub16("shift of negative"); if (a > (((1LL << (b - 1)) - 1) >> n)) ub16("shift overflow"); return a << n; } return cv_u(b, a << n); }
+static long long shr(int sg, int b, long long a, long long n) { if (n < 0 || n >= b) ub16("shift count"); return a >> n; }
+"""
+
+
+class R16(R):
+    """Expression emitter of the explicit p16 form (statements are inherited)."""
+
+    def B(self, ty):
+        return T.bits("p16", ty)
+
+    def S(self, ty):
+        return T.signed("p16", ty)
+
+    def cv(self, ty, emit_inner):
+        self.emit("cv_%s(%d, " % ("s" if self.S(ty) else "u", self.B(ty)))
+        emit_inner()
+        self.emit(")")
+
+    def ar(self, ty, emit_inner):
+        """result of an arithmetic operator of type ty"""
+        if self.S(ty):
+            self.emit("ck_s(%d, " % self.B(ty))
+        else:
+            self.emit("cv_u(%d, " % self.B(ty))
+        emit_inner()
+        self.emit(")")
+
+    def rv(self, i):
+        """emit node i as a long long rvalue (pointer typed nodes as pointers)"""
+        self.ex(i)
+
+    def lvtext(self, i):
+        n = self.N(i)
+        if n["k"] == "var":
+            self.emit(self.vname(n["fn"], n["v"]))
+        elif n["k"] == "deref":
+            self.emit("(*")
+            self.rv(n["a"])
+            self.emit(")")
+        else:
+            self.emit(self.vname(n["fn"], self.N(n["a"])["v"]) + "[")
+            self.rv(n["b"])
+            self.emit("]")
+
+    def binop(self, op, ct, ea, eb):
+        """emit (converted a) op (converted b) of operator type ct, a and b given as emit callbacks"""
+        if op in ("/",):
+            self.ar(ct, lambda: (self.emit("dv("), self.cv(ct, ea), self.emit(", "), self.cv(ct, eb), self.emit(")")))
+        elif op == "%":
+            self.emit("md(%d, %d, " % (1 if self.S(ct) else 0, self.B(ct)))
+            self.cv(ct, ea)
+            self.emit(", ")
+            self.cv(ct, eb)
+            self.emit(")")
+        elif op in ("<<", ">>"):
+            self.emit("%s(%d, %d, " % ("shl" if op == "<<" else "shr", 1 if self.S(ct) else 0, self.B(ct)))
+            self.cv(ct, ea)
+            self.emit(", ")
+            eb()
+            self.emit(")")
+        elif op in ("&", "|", "^"):
+            self.cv(ct, lambda: (self.emit("("), self.cv(ct, ea), self.emit(" %s " % op), self.cv(ct, eb), self.emit(")")))
+        else:
+            self.ar(ct, lambda: (self.emit("("), self.cv(ct, ea), self.emit(" %s " % op), self.cv(ct, eb), self.emit(")")))
+
+    def ex(self, i, lvalue_ctx=False):
+        n = self.N(i)
+        wrap = (i == self.probe or i == self.reach) and not lvalue_ctx and n["ty"] != "arr"
+        if wrap:
+            self.emit("PROBE(%d, " % (1 if i == self.probe else 0))
+        self.ex0(i, n)
+        if wrap:
+            self.emit(")")
+
+    def ex0(self, i, n):
+        k = n["k"]
+        ty = n["ty"]
+        if k == "num":
+            self.emit("(%dLL)" % n["v"])
+        elif k == "var":
+            nm = self.vname(n["fn"], n["v"])
+            self.emit(nm if ty in ("ptr", "arr") else "((long long)%s)" % nm)
+        elif k in ("deref", "idx"):
+            self.emit("((long long)")
+            self.lvtext(i)
+            self.emit(")")
+        elif k == "addr":
+            self.emit("(&")
+            self.lvtext(n["a"])
+            self.emit(")")
+        elif k == "cast":
+            self.cv(ty, lambda: self.rv(n["a"]))
+        elif k == "un":
+            if n["op"] == "!":
+                self.emit("((long long)!(")
+                self.rv(n["a"])
+                self.emit("))")
+            elif n["op"] == "-":
+                self.ar(ty, lambda: (self.emit("(-"), self.cv(ty, lambda: self.rv(n["a"])), self.emit(")")))
+            elif n["op"] == "~":
+                self.cv(ty, lambda: (self.emit("(~"), self.cv(ty, lambda: self.rv(n["a"])), self.emit(")")))
+            else:
+                self.cv(ty, lambda: self.rv(n["a"]))
+        elif k == "bin":
+            ta, tb = self.N(n["a"])["ty"], self.N(n["b"])["ty"]
+            ea, eb = (lambda: self.rv(n["a"])), (lambda: self.rv(n["b"]))
+            if ta == "ptr" or tb == "ptr":
+                self.emit("((long long)(")
+                ea()
+                self.emit(" %s " % n["op"])
+                if self.N(n["b"])["k"] == "num":
+                    self.emit("0")
+                else:
+                    eb()
+                self.emit("))")
+            elif n["op"] in ("<", "<=", ">", ">=", "==", "!="):
+                ct = T.common("p16", ta, tb)
+                self.emit("((long long)(")
+                self.cv(ct, ea)
+                self.emit(" %s " % n["op"])
+                self.cv(ct, eb)
+                self.emit("))")
+            elif n["op"] in ("<<", ">>"):
+                self.binop(n["op"], ty, ea, eb)
+            else:
+                self.binop(n["op"], T.common("p16", ta, tb), ea, eb)
+        elif k in ("land", "lor"):
+            self.emit("((long long)((")
+            self.rv(n["a"])
+            self.emit(") %s (" % ("&&" if k == "land" else "||"))
+            self.rv(n["b"])
+            self.emit(")))")
+        elif k == "cond":
+            self.emit("((")
+            self.rv(n["a"])
+            self.emit(") ? ")
+            self.cv(ty, lambda: self.rv(n["b"]))
+            self.emit(" : ")
+            self.cv(ty, lambda: self.rv(n["c"]))
+            self.emit(")")
+        elif k == "asg" and n["op"] == "=":
+            if ty == "ptr":
+                self.emit("(")
+                self.lvtext(n["a"])
+                self.emit(" = ")
+                if self.N(n["b"])["k"] == "num":
+                    self.emit("0")
+                else:
+                    self.rv(n["b"])
+                self.emit(")")
+            else:
+                self.emit("({ long long _r%d = " % i)
+                self.cv(ty, lambda: self.rv(n["b"]))
+                self.emit("; ")
+                self.lvtext(n["a"])
+                self.emit(" = (t_%s)_r%d; _r%d; })" % (ty, i, i))
+        elif k in ("asg", "inc"):
+            # E1 op= E2 : address of E1, old value, E2, operation in the common type, conversion to the type of E1
+            self.emit("({ t_%s *_p%d = &" % (ty, i))
+            self.lvtext(n["a"])
+            self.emit("; long long _o%d = *_p%d; " % (i, i))
+            if n["a"] == self.probe or n["a"] == self.reach:
+                self.emit("probe_out(%d, _o%d); " % (1 if n["a"] == self.probe else 0, i))
+            self.emit("long long _r%d = " % i)
+            old = lambda: self.emit("_o%d" % i)
+            if k == "inc":
+                ct = T.common("p16", ty, "int")
+                self.cv(ty, lambda: self.binop("+" if n["op"] == "++" else "-", ct, old, lambda: self.emit("1LL")))
+            else:
+                op = n["op"][:-1]
+                tb = self.N(n["b"])["ty"]
+                ct = T.promote("p16", ty) if op in ("<<", ">>") else T.common("p16", ty, tb)
+                self.cv(ty, lambda: self.binop(op, ct, old, lambda: self.rv(n["b"])))
+            self.emit("; *_p%d = (t_%s)_r%d; %s; })" % (i, ty, i, ("_r%d" % i) if (k == "asg" or n["v"] == 1) else ("_o%d" % i)))
+        elif k == "callx":
+            f = self.p["funcs"][n["v"] - 1]
+            if f["ret"] != "void":
+                self.emit("((long long)")
+            self.emit(f["name"] + "(")
+            for j, a in enumerate(n["ss"]):
+                if j:
+                    self.emit(", ")
+                pty = f["vars"][j]["ty"]
+                if pty == "ptr":
+                    self.rv(a)
+                else:
+                    self.emit("(t_%s)" % pty)
+                    self.cv(pty, lambda a=a: self.rv(a))
+            self.emit(")")
+            if f["ret"] != "void":
+                self.emit(")")
+        else:
+            raise ValueError("not an expression: %s" % k)
+
+    def st(self, i, ind):
+        n = self.N(i)
+        if n["k"] == "ret" and n["a"]:
+            f = self.p["funcs"][n["fn"] - 1]
+            self.emit("    " * ind + "return (t_%s)" % f["ret"])
+            self.cv(f["ret"], lambda: self.rv(n["a"]))
+            self.emit(";")
+            self.nl()
+        elif n["k"] == "switch":
+            pad = "    " * ind
+            sel = T.promote("p16", self.N(n["a"])["ty"])
+            self.emit(pad + "switch (")
+            self.cv(sel, lambda: self.rv(n["a"]))
+            self.emit(") {")
+            self.nl()
+            for cs in n["ss"]:
+                c = self.N(cs)
+                if c["op"] == "default":
+                    self.emit(pad + "default:")
+                else:
+                    self.emit(pad + "case %dLL:" % T.conv("p16", c["v"], sel))
+                self.nl()
+                for s in c["ss"]:
+                    self.st(s, ind + 1)
+            self.emit(pad + "}")
+            self.nl()
+        else:
+            R.st(self, i, ind)
